@@ -10,6 +10,7 @@ package filterstorage_test
 
 import (
 	"bytes"
+	"context"
 	"encoding/json"
 	"fmt"
 	"net/http"
@@ -59,6 +60,15 @@ type vc13Script struct {
 	// "notjson", and for the service index also "badid", "nilentry",
 	// "typeerr".
 	Flavor string `json:"fl,omitempty"`
+
+	// Form is, for the ok kinds, how the complete body is delimited: ""
+	// (Content-Length), "chunked" or "close".
+	Form string `json:"form,omitempty"`
+
+	// At gives an ok_new body an exact size: "limit-1" (the largest body
+	// that is certainly allowed) or "limit" (exactly the limit; whether that
+	// is allowed is not decided here, so only "previous or new" is asked).
+	At string `json:"at,omitempty"`
 }
 
 // vc13Round is one refresh round.
@@ -74,6 +84,16 @@ type vc13Round struct {
 	// Dribble makes complete bodies arrive in three pieces; between the
 	// pieces the server looks at the cache files.
 	Dribble bool `json:"dribble,omitempty"`
+
+	// CancelReq, if positive, makes the caller cancel the context of the
+	// refresh when the request with that number (from 1) arrives or, with
+	// CancelMid, after the first piece of its complete body.
+	CancelReq int  `json:"cancel_req,omitempty"`
+	CancelMid bool `json:"cancel_mid,omitempty"`
+
+	// Parallel runs the refresh of the storage and of the three hash-prefix
+	// filters at the same time, as their refresh workers may.
+	Parallel bool `json:"parallel,omitempty"`
 }
 
 // vc13Seq is one generated case.
@@ -98,6 +118,10 @@ type vc13URLInfo struct {
 	// flavor is the content flavour of the body.
 	flavor string
 
+	// form and at are the delimiting and the exact-size class of an ok body.
+	form string
+	at   string
+
 	kind vc13Kind
 	ok   bool
 	ver  int
@@ -118,6 +142,10 @@ type vc13RoundInfo struct {
 	// is invalid), garbage or fault.
 	svcClass  string
 	svcFlavor string
+
+	// uncertain is set if a body of exactly the size limit is delivered; the
+	// progress clauses are not asked in such a round.
+	uncertain bool
 }
 
 // vc13World is one storage with its server and the bookkeeping of the
@@ -153,6 +181,9 @@ type vc13World struct {
 	// timeout is the HTTP timeout of every refreshable.
 	timeout time.Duration
 
+	// probeUsed is the set of probe hosts already asked for.
+	probeUsed map[string]bool
+
 	// hashMax is the size limit of the hash lists.
 	hashMax int
 }
@@ -174,6 +205,18 @@ type vc13Probe struct {
 
 	n    int
 	fail string
+
+	// units, msgs, slotOf and served, if units is not nil, let the probe also
+	// ask the list that is being downloaded for its previous version.
+	units  *vc13Units
+	msgs   *dnsmsg.Constructor
+	slotOf map[string]*vc13Slot
+	served map[string]int
+	nAsked int
+
+	// used is the set of probe hosts that have been asked for already; it
+	// lives as long as the world.
+	used map[string]bool
 }
 
 // look is the probe callback of the server.
@@ -197,20 +240,54 @@ func (p *vc13Probe) look(path, stage string) {
 
 	p.n++
 	want := p.before[file]
-	if (got == nil) == (want == nil) && bytes.Equal(got, want) {
-		return
-	}
-
+	changed := !((got == nil) == (want == nil) && bytes.Equal(got, want))
 	for _, o := range p.others[path] {
-		if got != nil && bytes.Equal(got, o) {
-			return
+		if changed && got != nil && bytes.Equal(got, o) {
+			changed = false
 		}
 	}
 
-	p.fail = fmt.Sprintf(
-		"while the body of %s was only partly delivered (%s), the cache file %q had already changed\nbefore the round: %s\nseen: %s",
-		path, stage, file, vc13Short(want), vc13Short(got),
-	)
+	if changed {
+		p.fail = fmt.Sprintf(
+			"while the body of %s was only partly delivered (%s), the cache file %q had already changed\nbefore the round: %s\nseen: %s",
+			path, stage, file, vc13Short(want), vc13Short(got),
+		)
+
+		return
+	}
+
+	// The list whose new body is not there yet still serves its previous
+	// version.
+	s := p.slotOf[path]
+	if p.units == nil || s == nil || p.served[s.name] == 0 || len(p.others[path]) > 0 {
+		return
+	}
+
+	ver := p.served[s.name]
+	f := p.units.strg.ForConfig(context.Background(), vc13ConfFor(s))
+
+	// Prefer a host that nobody has asked for yet: a result cache cannot
+	// stand in for the list then.
+	host := vc13First(s.name, ver)
+	for i := 0; i < vc13ProbeHosts; i++ {
+		if h := vc13ProbeHost(s.name, ver, i); !p.used[h] {
+			p.used[h] = true
+			host = h
+
+			break
+		}
+	}
+
+	hf, err1 := vc13Hit(f, p.msgs, host)
+	hl, err2 := vc13Hit(f, p.msgs, vc13Last(s.name, ver))
+	p.nAsked++
+	if err1 != nil || err2 != nil || !hf || !hl {
+		p.fail = fmt.Sprintf(
+			"while the body of %s was only partly delivered (%s), list %q did not serve its previous version %d any more "+
+				"(%s blocked: %t, last marker blocked: %t, errors: %v %v)",
+			path, stage, s.name, ver, host, hf, hl, err1, err2,
+		)
+	}
 }
 
 // finish stops the probe and returns the number of looks and the first
@@ -224,18 +301,37 @@ func (p *vc13Probe) finish() (n int, fail string) {
 	return p.n, p.fail
 }
 
+// asked returns the number of times the probe asked a list for a verdict.
+func (p *vc13Probe) asked() (n int) {
+	p.mu.Lock()
+	defer p.mu.Unlock()
+
+	return p.nAsked
+}
+
 // newProbe creates the probe of a round.
 func (w *vc13World) newProbe(before *vc13Obs, info *vc13RoundInfo) (p *vc13Probe) {
-	p = &vc13Probe{dir: w.dir, before: before.Files, fileOf: map[string]string{}, others: map[string][][]byte{}}
+	p = &vc13Probe{
+		dir:    w.dir,
+		before: before.Files,
+		fileOf: map[string]string{},
+		others: map[string][][]byte{},
+		msgs:   w.msgs,
+		used:   w.probeUsed,
+		slotOf: map[string]*vc13Slot{},
+		served: before.Served,
+	}
 	p.fileOf[vc13IdxPath] = vc13IdxFile
 	for _, s := range vc13Slots {
 		p.fileOf[s.path] = s.file
+		p.slotOf[s.path] = s
 		if s.kind != vc13KindRule {
 			continue
 		}
 
 		d := s.path + "/dup"
 		p.fileOf[d] = s.file
+		p.slotOf[d] = s
 		if ui := info.urls[d]; ui != nil && ui.ok {
 			p.others[s.path] = append(p.others[s.path], ui.body)
 		}
@@ -278,6 +374,8 @@ func vc13NewWorld(
 		pub:      map[string][]byte{},
 		timeout:  timeout,
 		hashMax:  hashMax,
+
+		probeUsed: map[string]bool{},
 	}
 
 	w.u, err = vc13NewUnits(dir, w.srv.URL(), w.el, timeout, cacheOn, hashMax)
@@ -347,11 +445,42 @@ func (w *vc13World) plan(n int, rd *vc13Round) (resps map[string]*vc13Resp, info
 			limit = w.hashMax
 		}
 
+		// sized returns a well-formed body of exactly want octets.
+		sized := func(want int) (body []byte) {
+			const minPad = 3
+			pad := minPad + want - len(fresh(2, minPad))
+			if pad < minPad {
+				panic("vc13: cannot make a body that small")
+			}
+
+			body = fresh(2, pad)
+			if len(body) != want {
+				panic(fmt.Sprintf("vc13: sized body has %d octets, want %d", len(body), want))
+			}
+
+			return body
+		}
+
 		ui = &vc13URLInfo{kind: sc.Kind}
 		r := &vc13Resp{kind: sc.Kind}
+		if vc13IsOK(sc.Kind) {
+			r.form = sc.Form
+			ui.form = sc.Form
+		}
+
 		switch sc.Kind {
 		case vc13OKNew:
-			r.body = fresh(sc.Fill, 0)
+			switch sc.At {
+			case "limit-1":
+				r.body = sized(limit - 1)
+				ui.at = sc.At
+			case "limit":
+				r.body = sized(limit)
+				ui.at = sc.At
+				info.uncertain = true
+			default:
+				r.body = fresh(sc.Fill, 0)
+			}
 			ui.ok = true
 		case vc13OKSame:
 			if same != nil {
@@ -364,7 +493,6 @@ func (w *vc13World) plan(n int, rd *vc13Round) (resps map[string]*vc13Resp, info
 			{
 				// A well-formed body of exactly limit+over octets.  The
 				// largest enumerated excess means "twice the limit".
-				const minPad = 3
 				over := sc.Over
 				switch over {
 				case 0:
@@ -373,16 +501,7 @@ func (w *vc13World) plan(n int, rd *vc13Round) (resps map[string]*vc13Resp, info
 					over = limit
 				}
 
-				want := limit + over
-				pad := minPad + want - len(fresh(2, minPad))
-				if pad < minPad {
-					panic("vc13: cannot make a body that small")
-				}
-
-				r.body = fresh(2, pad)
-				if len(r.body) != want {
-					panic(fmt.Sprintf("vc13: sized body has %d octets, want %d", len(r.body), want))
-				}
+				r.body = sized(limit + over)
 			}
 		case vc13S404, vc13S500:
 			r.body = fresh(sc.Fill, 0)
@@ -395,7 +514,7 @@ func (w *vc13World) plan(n int, rd *vc13Round) (resps map[string]*vc13Resp, info
 			panic("vc13: bad kind " + string(sc.Kind))
 		}
 
-		if ui.ok && len(r.body) >= limit {
+		if ui.ok && len(r.body) >= limit && ui.at != "limit" {
 			panic("vc13: complete body is too large")
 		}
 
@@ -403,7 +522,7 @@ func (w *vc13World) plan(n int, rd *vc13Round) (resps map[string]*vc13Resp, info
 			panic("vc13: oversize body is too small")
 		}
 
-		if rd.Dribble && (ui.ok || sc.Kind == vc13Oversize) {
+		if (rd.Dribble || rd.CancelMid) && (ui.ok || sc.Kind == vc13Oversize) {
 			r.chunks = 3
 		}
 
@@ -411,7 +530,7 @@ func (w *vc13World) plan(n int, rd *vc13Round) (resps map[string]*vc13Resp, info
 		resps[path] = r
 		info.urls[path] = ui
 
-		if ui.ok && valid {
+		if ui.ok && valid && ui.at != "limit" {
 			w.pub[path] = r.body
 		}
 
@@ -448,7 +567,7 @@ func (w *vc13World) plan(n int, rd *vc13Round) (resps map[string]*vc13Resp, info
 
 			info.idx = w.idxInfos[string(ui.body)]
 			info.idxClass = info.idx.class
-			if info.idx.class == "valid" {
+			if info.idx.class == "valid" && ui.at != "limit" {
 				w.pub[vc13IdxPath] = ui.body
 			}
 		}
@@ -477,7 +596,7 @@ func (w *vc13World) plan(n int, rd *vc13Round) (resps map[string]*vc13Resp, info
 			return vc13Body(s, n, fill, flavor, pad)
 		}
 
-		valid := flavor == "" || flavor == "junk"
+		valid := flavor == "" || flavor == "junk" || flavor == "emptyrules"
 		ui := add(s.path, sc, mk, valid, w.pub[s.path])
 		ui.flavor = flavor
 		ui.rejected = ui.ok && flavor == "longline"
@@ -497,7 +616,7 @@ func (w *vc13World) plan(n int, rd *vc13Round) (resps map[string]*vc13Resp, info
 			switch {
 			case !ui.ok:
 				info.svcClass = "fault"
-			case flavor == "":
+			case flavor == "" || flavor == "emptyrules":
 				info.svcClass = "ok"
 				w.svcOK[string(ui.body)] = true
 			case flavor == "notjson":
@@ -591,6 +710,9 @@ type vc13RoundResult struct {
 	// faultAfterSuccess is set if a list that had a complete version was hit
 	// by a fault and the request reached the server.
 	faultAfterSuccess bool
+
+	// stalled is set if the code reported deadlines that were not scripted.
+	stalled bool
 }
 
 // checkRound is the oracle for one round.
@@ -675,11 +797,73 @@ func (w *vc13World) checkRound(
 	}
 
 	stalled := nTimeoutMsgs > nHangs
-	if stalled && !rd.Tight {
+	if stalled && !rd.Tight && rd.CancelReq == 0 {
+		res.stalled = true
 		cls("excused:stall-timeout")
 	}
 
-	progress := !rd.Tight && !stalled
+	progress := !rd.Tight && !stalled && rd.CancelReq == 0 && !info.uncertain
+	if rd.CancelReq > 0 {
+		mode := "arrival"
+		if rd.CancelMid {
+			mode = "mid"
+		}
+
+		cls(fmt.Sprintf("cancel:%d:%s", rd.CancelReq, mode))
+		for _, m := range msgs {
+			if strings.Contains(m, "context canceled") {
+				cls("cancel:seen-by-the-code")
+			}
+		}
+	}
+
+	if rd.Parallel {
+		cls("parallel")
+	}
+
+	if info.svcFlavor == "emptyrules" && hits["/svc"] > 0 && ri > 0 && after.Served["svc"] == info.urls["/svc"].ver {
+		cls("svc-emptyrules-applied")
+	}
+
+	if info.idx != nil && len(info.idx.urls) == 0 && info.idxClass == "valid" && hits[vc13IdxPath] > 0 {
+		cls("index-empty")
+	}
+
+	// Forms and exact sizes of complete bodies.
+	okCell := func(name, path string, ui *vc13URLInfo, b, a int) {
+		if !ui.ok || ui.rejected || hits[path] == 0 || ri == 0 {
+			return
+		}
+
+		form := ui.form
+		if form == "" {
+			form = "length"
+		}
+
+		applied := "not-applied"
+		if name == "idx" || (a == ui.ver && b != ui.ver) {
+			applied = "applied"
+		}
+
+		switch ui.at {
+		case "limit":
+			cls(fmt.Sprintf("size:%s:%s:limit", name, form))
+			if name != "idx" {
+				cls(fmt.Sprintf("size-limit:%s", applied))
+			}
+		case "limit-1":
+			cls(fmt.Sprintf("size:%s:%s:limit-1", name, form))
+		default:
+			if ui.form != "" {
+				cls(fmt.Sprintf("okform:%s:%s", name, form))
+			}
+		}
+	}
+
+	okCell("idx", vc13IdxPath, info.urls[vc13IdxPath], 0, 0)
+	for _, s := range vc13Slots {
+		okCell(s.name, s.path, info.urls[s.path], before.Served[s.name], after.Served[s.name])
+	}
 
 	// ---- Verdict clause.
 
@@ -930,10 +1114,14 @@ func (w *vc13World) checkRestart(seq *vc13Seq, last *vc13Obs, cacheOn bool) (cla
 	}
 
 	idxInfo := w.idxInfos[string(last.Files[vc13IdxFile])]
+	// The storage can only come up if both indexes on disk are usable and
+	// both safe-search lists are on disk (the server refuses everything now,
+	// and a stall in the very first round may have left one of them out).
 	strgOK := idxInfo != nil && (idxInfo.class == "valid" || idxInfo.class == "partial") &&
-		w.svcOK[string(last.Files[vc13SvcFile])]
+		w.svcOK[string(last.Files[vc13SvcFile])] &&
+		last.Files[vc13SlotByName("ssg").file] != nil && last.Files[vc13SlotByName("ssy").file] != nil
 
-	pnc := u.refreshAll(el, true, vc13CtxGenerous)
+	pnc := u.refreshAll(el, true, vc13CtxGenerous, false)
 	msgs := el.take()
 	if pnc != nil {
 		// The only complete download that is known to make the loader panic
@@ -991,7 +1179,19 @@ func (w *vc13World) checkRestart(seq *vc13Seq, last *vc13Obs, cacheOn bool) (cla
 }
 
 // vc13RunSeq runs one sequence against the real code.
-func vc13RunSeq(t vc13T, st *vstat.Stats, msgs *dnsmsg.Constructor, baseDir string, seq *vc13Seq) {
+//
+// If retryOnStall is set and the machine stalled in some round (the code
+// reported deadlines that were not scripted), nothing is recorded and stalled
+// is true: the caller runs the same sequence again, so that an enumerated cell
+// is not lost to a busy machine.  No verdict depends on this.
+func vc13RunSeq(
+	t vc13T,
+	st *vstat.Stats,
+	msgs *dnsmsg.Constructor,
+	baseDir string,
+	seq *vc13Seq,
+	retryOnStall bool,
+) (stalled bool) {
 	w := vc13NewWorld(t, st, msgs, baseDir, seq.CacheOn, vc13Timeout, vc13FaultHashMax)
 	defer w.close()
 
@@ -1007,17 +1207,27 @@ func vc13RunSeq(t vc13T, st *vstat.Stats, msgs *dnsmsg.Constructor, baseDir stri
 		rd := &seq.Rounds[ri]
 		n := ri + 1
 
+		// Ask for the markers of the version that is about to be published:
+		// nothing may serve them yet, and the negative answers now sit in the
+		// result caches, which a successful refresh has to drop.
+		w.prewarm(n, seq)
+
 		resps, info := w.plan(n, rd)
 		probe := w.newProbe(before, info)
-		w.srv.setPlan(resps, nil, probe.look)
+		probe.units = w.u
+		w.srv.setPlanCancel(resps, nil, probe.look, w.u.cancelRunning, rd.CancelReq, rd.CancelMid)
 
 		ctxTimeout := vc13CtxGenerous
 		if rd.Tight {
 			ctxTimeout = vc13Timeout
 		}
 
-		pnc := w.u.refreshAll(w.el, ri == 0, ctxTimeout)
+		pnc := w.u.refreshAll(w.el, ri == 0, ctxTimeout, rd.Parallel)
 		nLooks, probeFail := probe.finish()
+		if probe.asked() > 0 {
+			classes = append(classes, "probe:verdict-while-body-in-flight")
+		}
+
 		hits := w.srv.endRound()
 		emsgs := w.el.take()
 		if probeFail != "" {
@@ -1044,7 +1254,12 @@ func vc13RunSeq(t vc13T, st *vstat.Stats, msgs *dnsmsg.Constructor, baseDir stri
 			nontrivial = true
 		}
 
+		if res.stalled && retryOnStall {
+			return true
+		}
+
 		before = after
+		vc13AgeFiles(w.dir)
 	}
 
 	classes = append(classes, w.checkRestart(seq, before, seq.CacheOn))
@@ -1058,6 +1273,25 @@ func vc13RunSeq(t vc13T, st *vstat.Stats, msgs *dnsmsg.Constructor, baseDir stri
 	st.Case(key, vc13Uniq(classes)...)
 	if nontrivial && st.WantSample() {
 		st.Sample(seq)
+	}
+
+	return false
+}
+
+// prewarm queries the markers of version n (and of its alternative) of every
+// list before that version exists.
+func (w *vc13World) prewarm(n int, seq *vc13Seq) {
+	for _, s := range vc13Slots {
+		f := w.u.strg.ForConfig(context.Background(), vc13ConfFor(s))
+		for _, ver := range []int{n, n + vc13DupOffset} {
+			for _, h := range []string{vc13First(s.name, ver), vc13Last(s.name, ver)} {
+				hit, err := vc13Hit(f, w.msgs, h)
+				if err != nil || hit {
+					w.t.Fatalf("C13 violated before round %d: %q is filtered by list %q before any version with it was published "+
+						"(hit %t, error %v)\ncase: %s", n-1, h, s.name, hit, err, vc13JSON(seq))
+				}
+			}
+		}
 	}
 }
 
@@ -1084,7 +1318,18 @@ func vc13GenOK(t *rapid.T, label string) (sc vc13Script) {
 		k = vc13OKSame
 	}
 
-	return vc13Script{Kind: k, Fill: rapid.IntRange(0, 12).Draw(t, label+"-fill")}
+	sc = vc13Script{Kind: k, Fill: rapid.IntRange(0, 12).Draw(t, label+"-fill")}
+	sc.Form = rapid.SampledFrom([]string{"", "", "", "", "chunked", "close"}).Draw(t, label+"-form")
+	if k == vc13OKNew {
+		switch rapid.IntRange(0, 23).Draw(t, label+"-at") {
+		case 0, 1:
+			sc.At = "limit-1"
+		case 2:
+			sc.At = "limit"
+		}
+	}
+
+	return sc
 }
 
 // vc13GenFault draws a transport fault.  hangs is the remaining budget of
@@ -1114,6 +1359,11 @@ var vc13Overs = []int{1, 7, vc13MaxSize}
 // vc13GenEntries draws the entries of an index.  If partial is set, invalid
 // and duplicate entries are mixed in.
 func vc13GenEntries(t *rapid.T, partial, typeErr bool) (es []vc13Entry) {
+	if !partial && !typeErr && rapid.IntRange(0, 14).Draw(t, "idx-empty") == 0 {
+		// A valid index that lists nothing.
+		return []vc13Entry{}
+	}
+
 	for _, name := range vc13RuleNames {
 		if rapid.IntRange(0, 4).Draw(t, "idx-has-"+name) != 0 {
 			es = append(es, vc13Entry{T: "valid", L: name})
@@ -1233,6 +1483,10 @@ func vc13GenSeq(t *rapid.T) (seq *vc13Seq) {
 					sc.Flavor = "junk"
 				}
 
+				if s.kind == vc13KindSvc && sc.Kind == vc13OKNew && rapid.IntRange(0, 5).Draw(t, lbl+"-svc-emptyrules") == 0 {
+					sc.Flavor = "emptyrules"
+				}
+
 				rd.S[s.name] = sc
 			case s.kind == vc13KindHash && rapid.IntRange(0, 4).Draw(t, lbl+"-hash-content-"+s.name) == 0:
 				// Delivered completely, rejected by the parser.
@@ -1264,6 +1518,11 @@ func vc13GenSeq(t *rapid.T) (seq *vc13Seq) {
 
 		rd.Tight = rapid.IntRange(0, 5).Draw(t, lbl+"-tight") == 0
 		rd.Dribble = rapid.IntRange(0, 3).Draw(t, lbl+"-dribble") == 0
+		rd.Parallel = rapid.IntRange(0, 3).Draw(t, lbl+"-parallel") == 0
+		if rapid.IntRange(0, 7).Draw(t, lbl+"-cancel") == 0 {
+			rd.CancelReq = rapid.IntRange(1, len(vc13Targets)).Draw(t, lbl+"-cancel-req")
+			rd.CancelMid = rapid.Bool().Draw(t, lbl+"-cancel-mid")
+		}
 		seq.Rounds = append(seq.Rounds, rd)
 	}
 
@@ -1285,6 +1544,8 @@ var vc13RequiredClasses = []string{
 	"fault-without-previous",
 	"fault:conn_close", "fault:hang_hdr", "fault:hang_body", "fault:s404", "fault:s500", "fault:empty",
 	"fault:content_longline", "content-junk:rule", "content-junk:ss",
+	"parallel", "cancel:seen-by-the-code", "index-empty", "svc-emptyrules-applied", "probe:verdict-while-body-in-flight",
+	"size-limit:applied",
 	"fault:oversize", "fault:oversize_chunked", "fault:oversize_close", "fault:short_cl", "fault:chunk_trunc",
 	"fault-slot:rule", "fault-slot:svc", "fault-slot:ss", "fault-slot:hash",
 	"idx:fault", "idx:partial", "idx:garbage",
@@ -1307,7 +1568,7 @@ func TestVerifC13FaultSequences(t *testing.T) {
 
 	rapid.Check(t, func(t *rapid.T) {
 		seq := vc13GenSeq(t)
-		vc13RunSeq(t, st, msgs, baseDir, seq)
+		vc13RunSeq(t, st, msgs, baseDir, seq, false)
 	})
 }
 
@@ -1464,6 +1725,59 @@ func vc13GridSeqs() (seqs []*vc13Seq) {
 		seqs = append(seqs, three(mid))
 	}
 
+	// Complete bodies in every form of delimiting, of ordinary size, of the
+	// largest allowed size and of exactly the size limit, at every target.
+	set := func(rd *vc13Round, tg string, sc vc13Script) {
+		if tg == "idx" {
+			rd.Idx = sc
+		} else {
+			rd.S[tg] = sc
+		}
+	}
+
+	for _, form := range []string{"", "chunked", "close"} {
+		for _, at := range []string{"", "limit-1", "limit"} {
+			if form == "" && at == "" {
+				continue
+			}
+
+			for _, tg := range vc13Targets {
+				mid := okRound()
+				set(&mid, tg, vc13Script{Kind: vc13OKNew, Fill: 3, Form: form, At: at})
+				seqs = append(seqs, three(mid))
+			}
+		}
+	}
+
+	// The caller gives up at every request of the round, on its arrival and
+	// in the middle of its body.
+	for req := 1; req <= len(vc13Targets); req++ {
+		for _, mid := range []bool{false, true} {
+			rd := okRound()
+			rd.CancelReq, rd.CancelMid = req, mid
+			seqs = append(seqs, three(rd))
+		}
+	}
+
+	// The four refreshes run at the same time; one target fails.
+	for _, tg := range vc13Targets {
+		mid := okRound()
+		mid.Parallel = true
+		set(&mid, tg, vc13Script{Kind: vc13S500, Fill: 3})
+		seqs = append(seqs, three(mid))
+	}
+
+	{
+		// A valid index that lists nothing; a service without rules.
+		mid := okRound()
+		mid.Entries = []vc13Entry{}
+		seqs = append(seqs, three(mid))
+
+		mid = okRound()
+		mid.S["svc"] = vc13Script{Kind: vc13OKNew, Fill: 3, Flavor: "emptyrules"}
+		seqs = append(seqs, three(mid))
+	}
+
 	return seqs
 }
 
@@ -1480,6 +1794,22 @@ func TestVerifC13FaultGrid(t *testing.T) {
 	for _, name := range []string{"a", "b", "c", "ssg", "ssy"} {
 		req = append(req, "content-junk-accepted:"+name)
 	}
+
+	for _, tg := range vc13Targets {
+		for _, form := range []string{"length", "chunked", "close"} {
+			req = append(req, "size:"+tg+":"+form+":limit-1", "size:"+tg+":"+form+":limit")
+			if form != "length" {
+				req = append(req, "okform:"+tg+":"+form)
+			}
+		}
+	}
+
+	for i := 1; i <= len(vc13Targets); i++ {
+		req = append(req, fmt.Sprintf("cancel:%d:arrival", i), fmt.Sprintf("cancel:%d:mid", i))
+	}
+
+	req = append(req, "cancel:seen-by-the-code", "parallel", "index-empty", "svc-emptyrules-applied",
+		"probe:verdict-while-body-in-flight")
 
 	for _, k := range vc13FaultKinds {
 		for _, tg := range vc13Targets {
@@ -1510,7 +1840,13 @@ func TestVerifC13FaultGrid(t *testing.T) {
 		}
 
 		t.Logf("grid case %d", i)
-		vc13RunSeq(t, st, msgs, baseDir, seq)
+		for attempt := 0; attempt < 5; attempt++ {
+			if !vc13RunSeq(t, st, msgs, baseDir, seq, attempt < 4) {
+				break
+			}
+
+			st.Class("grid:retried-after-stall")
+		}
 	}
 
 	st.Extra("grid_cases", len(seqs))
